@@ -217,8 +217,8 @@ def r3_node_type_consistency(repo):
     ok = len(ge) == 1 and len(vd) == 1
     if ok:
         t = src(ge[0].args[0])
-        inf = kwarg(vd[0], "inferred_type")
-        vt = kwarg(vd[0], "var_type")
+        inf = kwarg(vd[0], "inferred_type", 4)
+        vt = kwarg(vd[0], "var_type", 3)
         prov = Prov(f.node, passthrough={"get_bound_rec"})
         vt_srcs = {src(s) for s in prov.sources(vt, at=vd[0]) if isinstance(s, (ast.Name,)) or isinstance(s, tuple)}
         g = cfg_of(f.node)
@@ -291,7 +291,7 @@ def r3_node_type_consistency(repo):
     gen = [n for n in iter_own_nodes(f.node) if isinstance(n, ast.Assign) and src(n.targets[0]) == "expr" and
            isinstance(n.value, ast.Call) and "generators" in src(n.value)]
     ok = len(vd) == 1 and len(gen) == 1 and src(vd[0].args[0]) == src(gen[0].value.args[0]) and \
-        src(kwarg(vd[0], "expr")) == "expr"
+        src(kwarg(vd[0], "expr", 2)) == "expr"
     obs.append(Ob("C01-R3", "generate_expr:temporary-variable-typed-with-the-generated-type", _w(f), ok,
                   "when the expression is put into a fresh variable, the variable gets the type the expression was generated for"))
     return obs
@@ -337,7 +337,7 @@ def r4_substitute_members(repo):
 
 
 def _gen_bottom_ok(f, call, type_expr):
-    gb = kwarg(call, "gen_bottom")
+    gb = kwarg(call, "gen_bottom", 4 if call_name(call) == "generate_expr" else None)
     if gb is None:
         return False, "no gen_bottom= argument"
     t = src(type_expr)
@@ -429,8 +429,8 @@ def r6_inheritance(repo):
     ok = len(call) == 1
     if ok:
         c = call[0]
-        ok = src(kwarg(c, "func_name")) == "func.name" and src(kwarg(c, "params")) == "params" and \
-            src(kwarg(c, "etype")) == "ret_type"
+        ok = src(kwarg(c, "func_name", 3)) == "func.name" and src(kwarg(c, "params", 4)) == "params" and \
+            src(kwarg(c, "etype", 0)) == "ret_type"
         pd = cfg_of(f.node).defs_reaching("params", c)
         ok = ok and any(isinstance(d[1], ast.Call) and call_name(d[1]) == "deepcopy" and
                         src(d[1].args[0]) == "func.params" for d in pd)
@@ -493,7 +493,7 @@ def r8_call_assembly(repo):
     ok = len(fc) == 1
     if ok:
         c = fc[0]
-        ta = kwarg(c, "type_args")
+        ta = kwarg(c, "type_args", 3)
         g = cfg_of(f.node)
         d = g.defs_reaching(ta.id, c) if isinstance(ta, ast.Name) else []
         shape = len(d) == 1 and isinstance(d[0][1], ast.IfExp) and isinstance(d[0][1].orelse, ast.ListComp) and \
